@@ -258,3 +258,52 @@ Proof.
       * rewrite in_app_iff. cbn [In]. split; [intros [H|[H|[]]]; auto|intros [[_ ->]|H]; auto].
     + split; [auto|]. intros [[H _]|H]; [discriminate|exact H].
 Qed.
+
+(* ---- multi-contexts: a single member is transparent; the own layers of the members are asked first, in order ---- *)
+Lemma multi_single s c n : get_data s (new_multi [c]) n = get_data s c n.
+Proof.
+  rewrite !get_data_spec, new_multi_flatten by discriminate. cbn [map].
+  rewrite zipmerge_single; [reflexivity|]. unfold max_depth. cbn [fold_right]. lia.
+Qed.
+
+Lemma first_some_app_some {A B} (f : A -> option B) l1 l2 v :
+  first_some f l1 = Some v -> first_some f (l1 ++ l2) = Some v.
+Proof.
+  induction l1 as [|x r IH]; cbn [first_some app]; [discriminate|].
+  destruct (f x); [auto|exact IH].
+Qed.
+
+Lemma first_some_app_none {A B} (f : A -> option B) l1 l2 :
+  first_some f l1 = None -> first_some f (l1 ++ l2) = first_some f l2.
+Proof.
+  induction l1 as [|x r IH]; cbn [first_some app]; [reflexivity|].
+  destruct (f x); [discriminate|exact IH].
+Qed.
+
+(* the first layer of a multi-context is the members' own layers side by side: the first member whose OWN layer
+   defines the name wins, whatever the members' ancestors define *)
+Lemma multi_own_layers_first s m r n v :
+  get_own s m n = Some v -> get_data s (new_multi (m :: r)) n = Some v.
+Proof.
+  intro H. rewrite get_data_spec, new_multi_flatten by discriminate.
+  pose proof (max_depth_nonempty (m :: r)) as D.
+  destruct (max_depth (m :: r)) as [|k] eqn:E; [assert (m :: r <> []) by discriminate; specialize (D H0); lia|].
+  cbn [zipmerge map]. rewrite <- (map_cons flatten m r), heads_flatten.
+  unfold layers_get. cbn [first_some flat_map]. unfold layer_get at 1.
+  rewrite get_own_spec in H. unfold layer_get in H.
+  rewrite (first_some_app_some _ _ _ _ H). reflexivity.
+Qed.
+
+Lemma multi_skips_silent_member s m r n :
+  get_own s m n = None -> r <> [] ->
+  layer_get s n (hd [] (flatten (new_multi (m :: r)))) = layer_get s n (hd [] (flatten (new_multi r))).
+Proof.
+  intros H Hr. rewrite !new_multi_flatten by (assumption || discriminate).
+  pose proof (max_depth_nonempty (m :: r)) as D. pose proof (max_depth_nonempty r Hr) as D'.
+  destruct (max_depth (m :: r)) as [|k] eqn:E; [assert (X : m :: r <> []) by discriminate; specialize (D X); lia|].
+  destruct (max_depth r) as [|k'] eqn:E'; [lia|].
+  destruct r as [|m' r']; [contradiction|].
+  cbn [zipmerge map hd]. rewrite <- !map_cons, !heads_flatten. cbn [flat_map].
+  unfold layer_get. rewrite get_own_spec in H. unfold layer_get in H.
+  apply first_some_app_none. exact H.
+Qed.
